@@ -68,6 +68,8 @@ def run(tier, out):
         out.notes.append("component-level CommandOutput check not present")
     from checks import k_writetask
     k_writetask.run_k(tier, out, os.path.join(wd, "kwt"), prop="C14", only=("KindS", "KindVS"))
+    from checks import k_lanes
+    k_lanes.run_k(tier, out, os.path.join(wd, "klanes"), prop="C14")
     out.add(traces_validated_against_impl=tot_cases, trace_events_validated=tot_events,
             rule="scripts are behaviours of AgentEnv.tla (TLC simulation, seeded) plus long bursts; every recorded execution of the real agent+runtime is validated against Trace_NoCoalesce.tla",
             checker_cmd="tlc -simulate AgentEnv; h_runtime/e2e; tlc Trace_NoCoalesce (POSTCONDITION TraceAccepted)")
@@ -77,6 +79,9 @@ def run(tier, out):
 
 def replay(path, out):
     obj = json.load(open(path))["replay"]
+    if obj.get("component") == "lanes":
+        from checks import k_lanes
+        return k_lanes.replay(path, out)
     if str(obj.get("component", "")).startswith("WriteTask"):
         from checks import k_writetask
         return k_writetask.replay(path, out)
